@@ -22,12 +22,21 @@ Definition mix (seed n : N) : N :=
   let z := N.modulo (N.lxor z (N.shiftr z 27) * 10723151780598845931) m64 in
   N.lxor z (N.shiftr z 31).
 
+(* a misbehaving ==: the seed selects the kind of misbehaviour *)
+Definition adv_answer (seed n : N) (truth : bool) : bool :=
+  match N.modulo seed 4 with
+  | 0%N => if N.eqb (N.modulo (mix seed n) 4) 0 then negb truth else truth   (* lies now and then *)
+  | 1%N => true                                   (* everything equals everything *)
+  | 2%N => false                                  (* nothing equals anything, not even itself *)
+  | _ => if N.even n then truth else negb truth   (* changes between two calls on the same operands *)
+  end.
+
 Definition eq_answer (sc : script) (s : cstate) (truth : bool) : ans * cstate :=
   let n := n_eq s in
   let s' := {| n_eq := n + 1; n_clone := n_clone s; n_call := n_call s; next_id := next_id s |} in
   if N.eqb (sc_fk sc) 1 && N.eqb (sc_fa sc) n then (Boom, s')
   else
-    let t := if sc_adv sc && N.eqb (N.modulo (mix (sc_seed sc) n) 4) 0 then negb truth else truth in
+    let t := if sc_adv sc then adv_answer (sc_seed sc) n truth else truth in
     ((if t then Yes else No), s').
 
 Definition clone_tick (sc : script) (s : cstate) : option N * cstate :=
